@@ -357,6 +357,9 @@ func c10(ctx *Ctx) (*Outcome, error) {
 	for i := 0; i < ctx.N(16, 32); i++ {
 		cases = append(cases, fileCycleCase(i))
 	}
+	for i := 0; i < 36; i++ {
+		cases = append(cases, definitionCycleCase(i))
+	}
 	for i := 0; i < ctx.N(14, 28); i++ {
 		cases = append(cases, sameStemCase(i))
 	}
@@ -492,7 +495,7 @@ func c10(ctx *Ctx) (*Outcome, error) {
 
 // reC10Stratum: the hand-built reference layouts; each of them is generated and built by the unchanged tool, so a
 // refusal or unbuildable output is a reference form that stopped being transparent.
-var reC10Stratum = regexp.MustCompile(`^(file-cycle|same-stem|same-base-dir|self-ref-twin|symlink-dir|same-name-def-two-files|cross-package|both-defs-keywords)/`)
+var reC10Stratum = regexp.MustCompile(`^(file-cycle|definition-cycle|same-stem|same-base-dir|self-ref-twin|symlink-dir|same-name-def-two-files|cross-package|both-defs-keywords)/`)
 
 // sameBaseDirCase: schema files with the SAME base name in different directories, one referring to definitions of
 // the others by relative path while holding definitions of the same names itself; also a reference that spells out
